@@ -714,6 +714,8 @@ func Chains(holes []Hole, leaves []*Node, depth int, validOnly bool, f func(e *N
 	rec(depth, func(x *Node) *Node { return x }, "", "")
 }
 
+func Clone(n *Node) *Node { return cloneNode(n) }
+
 func cloneNode(n *Node) *Node {
 	if n == nil {
 		return nil
